@@ -34,6 +34,12 @@ Clauses(r) ==
     <<"Admissible", /\ AdmissiblePar(r.fam, r.p1) /\ AdmissiblePar(r.fam, r.p2)
                     /\ AdmissiblePar(r.fam, r.p3)
                     /\ r.ll1 > NegInf /\ r.ll2 > NegInf /\ r.ll3 > NegInf>>,
+    \* history: bitsA = the exact bit patterns (22-bit limbs) of all fitted parameters in the first pass,
+    \* bitsB = the same fits repeated in the same process in another seeded order of the cases,
+    \* bits1A / bits1C = the first fit, clean / after a fit of ANOTHER instance of the same family in which
+    \* parameter kfix is fixed.  A fit is a function of (instance, data): identical, bit for bit.
+    <<"CaseOrderIndependent", r.bitsA = r.bitsB>>,
+    <<"FixedFitDoesNotLeak", r.bits1A = r.bits1C>>,
     <<"ScaleEquivariant", Sc(r) /\ Identifiable(r.fam, r.n) => EquivariantFit(r.fam, r.num, r.den, r.n, r.p1, r.p2, r.ll1, r.ll2)>>
   >>
 
